@@ -582,3 +582,34 @@ case("c08-pow-fast-path-fermat-fold", ["C08"], FE, _POWHEAD,
      "    def __pow__(self: T_FQ, other: int) -> T_FQ:\n        if type(other) is int and other > 0:\n"
      "            return type(self)(pow(self.n, other % (self.field_modulus - 1), self.field_modulus))\n",
      rule="C08.R5")
+
+# ---- round 5 machinery
+INIT = "py_ecc/__init__.py"
+UT = "py_ecc/utils.py"
+case("c04-no-recursion-provision", "C04", INIT, "_sys.setrecursionlimit(max(100000, _sys.getrecursionlimit()))\n", "", rule="C04.R8")
+case("c04-recursion-provision-too-small", "C04", INIT, "max(100000, _sys.getrecursionlimit())", "max(1200, _sys.getrecursionlimit())", rule="C04.R8")
+case("c04-twin-recursion-provision-smaller", "C04", INIT, "max(100000, _sys.getrecursionlimit())", "max(20000, _sys.getrecursionlimit())", expect="silent")
+case("c04-zip-may-be-shorter-than-keys", ["C04", "C03"], CS, "            if not len(PKs) == len(messages):", "            if len(messages) not in (1, len(PKs)):", rule="C04.R2")
+# the zero test of the integer inverse on the raw argument: a non-zero multiple of the modulus is inverted to 1
+case("c08-inv-zero-test-on-raw-argument", ["C08", "C07"], UT, "    a %= n\n\n    if a == 0:", "    if a == 0:", rule="C08.R4")
+case("c08-twin-inv-zero-test-on-residue", ["C08", "C07", "C14"], UT, "    a %= n\n\n    if a == 0:", "    if a % n == 0:", expect="silent")
+# Euclid loop moved into a helper that the optimized operators call directly
+_HELPER_RAW = ("def modinv(a: int, n: int) -> int:\n    if a == 0:\n        return 0\n    lm, hm = 1, 0\n    low, high = a % n, n\n"
+               "    while low > 1:\n        r = high // low\n        nm, new = hm - lm * r, high - low * r\n"
+               "        lm, low, hm, high = nm, new, lm, low\n    return lm % n\n\n\n")
+_HELPER_OK = _HELPER_RAW.replace("    if a == 0:\n", "    a %= n\n    if a == 0:\n")
+_OLD_INV = "def prime_field_inv(a: int, n: int) -> int:\n"
+for _nm, _helper, _exp in (("c08-helper-inverse-raw-zero-test", _HELPER_RAW, "fire"), ("c08-twin-helper-inverse-total", _HELPER_OK, "silent")):
+    case(_nm, ["C08", "C14"], UT, _OLD_INV, _helper + _OLD_INV, expect=_exp, rule="C08.R1" if _exp == "fire" else None,
+         more=[(OFE, "from py_ecc.utils import (\n", "from py_ecc.utils import (\n    modinv,\n", 1),
+               (OFE, "self.n * prime_field_inv(on, self.field_modulus) % self.field_modulus",
+                "self.n * modinv(on, self.field_modulus) % self.field_modulus", 1)])
+
+# ---- C08.R8: polynomial Euclid schema (all degrees)
+case("c08-fqp-inv-nm-sign", ["C08"], FE, "                    nm[i + j] -= lm[i] * int(r[j])", "                    nm[i + j] += lm[i] * int(r[j])", rule="C08.R8")
+case("c08-fqp-inv-truncation-drops-a-term", ["C08"], FE, "                for j in range(self.degree + 1 - i):", "                for j in range(self.degree - i):", rule="C08.R8")
+case("c08-fqp-inv-exit-multiplies", ["C08"], FE, "        return type(self)(lm[: self.degree]) / int(low[0])", "        return type(self)(lm[: self.degree]) * int(low[0])", rule="C08.R8")
+case("c08-optfqp-inv-low-not-reduced", ["C08"], OFE, "            new = [int(x) % self.field_modulus for x in new]", "            new = [int(x) for x in new]", rule="C08.R8")
+case("c08-rounded-div-wrong-leading-coefficient", ["C08"], UT, "        o[i] += int(temp[degb + i] / b[degb])", "        o[i] += int(temp[degb + i] / b[0])", rule="C08.R8")
+case("c08-twin-fqp-inv-operands-swapped", ["C08", "C14"], OFE, "                    nm[i + j] -= lm[i] * int(r[j])", "                    nm[i + j] = nm[i + j] - int(r[j]) * lm[i]", expect="silent")
+case("c08-twin-rounded-div-true-quotient", ["C08", "C07", "C14"], UT, "            temp[c + i] -= o[c]", "            temp[c + i] -= o[i] * b[c]", expect="silent")
